@@ -77,7 +77,55 @@ Section Narrow.
   Definition cyclic (fuel : nat) (P : registry) (t : nat) : option bool :=
     option_map fst (contains_cycle fuel P [] t).
 
-  (* ---- intersect_types / intersect_pair, narrowing.rs:303-372 ---- *)
+  (* ---- intersect_types / intersect_pair, narrowing.rs:303-372 ----
+     The Rust loops are top-level definitions here, parametrised by the recursive call (as in
+     Rel.v), so that they can be reasoned about. *)
+  Section IntersectLoops.
+    Variable ipair : registry -> nat -> nat -> option (registry * nat).    (* intersect_pair *)
+    Variable itypes : registry -> nat -> nat -> option (registry * nat).   (* intersect_types *)
+
+    (* narrowing.rs:310-315  for bv in b_variants { piece = intersect_pair(av, bv); if piece != never { push } } *)
+    Fixpoint isect_inner (never_id : nat) (P : registry) (pieces : list nat) (av : nat) (bvs : list nat)
+      : option (registry * list nat) :=
+      match bvs with
+      | [] => Some (P, pieces)
+      | bv :: bvs' =>
+        match ipair P av bv with
+        | None => None
+        | Some (P', piece) =>
+          isect_inner never_id P' (if Nat.eqb piece never_id then pieces else pieces ++ [piece]) av bvs'
+        end
+      end.
+
+    (* narrowing.rs:309  for av in a_variants *)
+    Fixpoint isect_outer (never_id : nat) (b_variants : list nat) (P : registry) (pieces : list nat) (avs : list nat)
+      : option (registry * list nat) :=
+      match avs with
+      | [] => Some (P, pieces)
+      | av :: avs' =>
+        match isect_inner never_id P pieces av b_variants with
+        | None => None
+        | Some (P', pieces') => isect_outer never_id b_variants P' pieces' avs'
+        end
+      end.
+
+    (* narrowing.rs:354-360  for ((name, f1), (_, f2)) in zip { fi = intersect_types(f1, f2);
+         if fi == program.never() { return never }  fields.push((name, fi)) }   (None = returned never) *)
+    Fixpoint isect_fields (P : registry) (acc : list (option nat * nat)) (fs1 fs2 : list (option nat * nat))
+      : option (registry * option (list (option nat * nat))) :=
+      match fs1, fs2 with
+      | (name, f1) :: fs1', (_, f2) :: fs2' =>
+        match itypes P f1 f2 with
+        | None => None
+        | Some (P1, fi) =>
+          let '(P2, nv) := never P1 in
+          if Nat.eqb fi nv then Some (P2, None)
+          else isect_fields P2 (acc ++ [(name, fi)]) fs1' fs2'
+        end
+      | _, _ => Some (P, Some acc)
+      end.
+  End IntersectLoops.
+
   Fixpoint intersect_types (fuel : nat) (P : registry) (a_id b_id : nat) : option (registry * nat) :=
     match fuel with
     | 0 => None
@@ -85,30 +133,7 @@ Section Narrow.
       let a_variants := get_type_variants P a_id in
       let b_variants := get_type_variants P b_id in
       let '(P0, never_id) := never P in
-      (* for av in a_variants { for bv in b_variants { piece = intersect_pair(av, bv) .. } } *)
-      let inner :=
-        fix inner (P : registry) (pieces : list nat) (av : nat) (bvs : list nat)
-          : option (registry * list nat) :=
-          match bvs with
-          | [] => Some (P, pieces)
-          | bv :: bvs' =>
-            match intersect_pair f P av bv with
-            | None => None
-            | Some (P', piece) =>
-              inner P' (if Nat.eqb piece never_id then pieces else pieces ++ [piece]) av bvs'
-            end
-          end in
-      let outer :=
-        fix outer (P : registry) (pieces : list nat) (avs : list nat) : option (registry * list nat) :=
-          match avs with
-          | [] => Some (P, pieces)
-          | av :: avs' =>
-            match inner P pieces av b_variants with
-            | None => None
-            | Some (P', pieces') => outer P' pieces' avs'
-            end
-          end in
-      match outer P0 [] a_variants with
+      match isect_outer (intersect_pair f) never_id b_variants P0 [] a_variants with
       | None => None
       | Some (P1, pieces) => Some (union_type_ids P1 pieces)
       end
@@ -137,22 +162,7 @@ Section Narrow.
                || negb (Nat.eqb (length (tfields i1)) (length (tfields i2)))
             then Some (P0, never_id)
             else
-              (* for ((name, f1), (_, f2)) in zip { fi = intersect_types(f1, f2); if fi == never return never } *)
-              let fields_loop :=
-                fix fields_loop (P : registry) (acc : list (option nat * nat))
-                    (fs1 fs2 : list (option nat * nat)) : option (registry * option (list (option nat * nat))) :=
-                  match fs1, fs2 with
-                  | (name, f1) :: fs1', (_, f2) :: fs2' =>
-                    match intersect_types f P f1 f2 with
-                    | None => None
-                    | Some (P', fi) =>
-                      let '(P'', nv) := never P' in
-                      if Nat.eqb fi nv then Some (P'', None)
-                      else fields_loop P'' (acc ++ [(name, fi)]) fs1' fs2'
-                    end
-                  | _, _ => Some (P, Some acc)
-                  end in
-              match fields_loop P0 [] (tfields i1) (tfields i2) with
+              match isect_fields (intersect_types f) P0 [] (tfields i1) (tfields i2) with
               | None => None
               | Some (P1, None) => Some (P1, never_id)
               | Some (P1, Some fields) =>
@@ -181,6 +191,55 @@ Section Narrow.
     end.
 
   (* ---- compute_complement / subtract_one, narrowing.rs:403-479 ---- *)
+  Section ComplementLoops.
+    Variable sub1 : registry -> nat -> nat -> option (registry * list nat).      (* subtract_one *)
+    Variable compl : registry -> nat -> nat -> option (registry * nat).          (* compute_complement *)
+
+    (* narrowing.rs:407-410  for piece in pieces { next.extend(subtract_one(piece, nv)) } *)
+    Fixpoint compl_per_piece (P : registry) (next : list nat) (pieces : list nat) (nv : nat)
+      : option (registry * list nat) :=
+      match pieces with
+      | [] => Some (P, next)
+      | piece :: pieces' =>
+        match sub1 P piece nv with
+        | None => None
+        | Some (P1, out) => compl_per_piece P1 (next ++ out) pieces' nv
+        end
+      end.
+
+    (* narrowing.rs:406-412  for nv in narrowed_variants { pieces = next } *)
+    Fixpoint compl_per_nv (P : registry) (pieces : list nat) (nvs : list nat) : option (registry * list nat) :=
+      match nvs with
+      | [] => Some (P, pieces)
+      | nv :: nvs' =>
+        match compl_per_piece P [] pieces nv with
+        | None => None
+        | Some (P1, next) => compl_per_nv P1 next nvs'
+        end
+      end.
+
+    (* narrowing.rs:465-475  for (i, ((_, f1), (_, f2))) in zip.enumerate() {
+         fc = compute_complement(f1, f2); if fc == never { continue }
+         fields = i1.fields.clone(); fields[i].1 = fc; out.push(Type::Tuple(register_tuple(name, fields))) } *)
+    Fixpoint compl_fields (never_id : nat) (name : option nat) (all_fields : list (option nat * nat))
+             (P : registry) (out : list nat) (i : nat) (fs1 fs2 : list (option nat * nat))
+      : option (registry * list nat) :=
+      match fs1, fs2 with
+      | (_, f1) :: fs1', (_, f2) :: fs2' =>
+        match compl P f1 f2 with
+        | None => None
+        | Some (P1, fc) =>
+          if Nat.eqb fc never_id then compl_fields never_id name all_fields P1 out (S i) fs1' fs2'
+          else
+            let fields := set_field_type all_fields i fc in
+            let '(P2, tuple_id) := register_tuple P1 name fields in
+            let '(P3, ty_id) := register_type P2 (TTuple tuple_id) in
+            compl_fields never_id name all_fields P3 (out ++ [ty_id]) (S i) fs1' fs2'
+        end
+      | _, _ => Some (P, out)
+      end.
+  End ComplementLoops.
+
   Fixpoint compute_complement (fuel : nat) (P : registry) (original_id narrowed_id : nat)
     : option (registry * nat) :=
     match fuel with
@@ -188,28 +247,7 @@ Section Narrow.
     | S f =>
       let narrowed_variants := get_type_variants P narrowed_id in
       let pieces0 := get_type_variants P original_id in
-      let per_piece :=
-        fix per_piece (P : registry) (next : list nat) (pieces : list nat) (nv : nat)
-          : option (registry * list nat) :=
-          match pieces with
-          | [] => Some (P, next)
-          | piece :: pieces' =>
-            match subtract_one f P piece nv with
-            | None => None
-            | Some (P', out) => per_piece P' (next ++ out) pieces' nv
-            end
-          end in
-      let per_nv :=
-        fix per_nv (P : registry) (pieces : list nat) (nvs : list nat) : option (registry * list nat) :=
-          match nvs with
-          | [] => Some (P, pieces)
-          | nv :: nvs' =>
-            match per_piece P [] pieces nv with
-            | None => None
-            | Some (P', next) => per_nv P' next nvs'
-            end
-          end in
-      match per_nv P pieces0 narrowed_variants with
+      match compl_per_nv (subtract_one f) P pieces0 narrowed_variants with
       | None => None
       | Some (P1, pieces) => Some (union_type_ids P1 pieces)
       end
@@ -258,25 +296,8 @@ Section Narrow.
                    || existsb (fun ab => negb (opt_eqb (fst (fst ab)) (fst (snd ab))))
                               (combine (tfields i1) (tfields i2))
                 then Some (P0, [a])
-                else
-                  let loop :=
-                    fix loop (P : registry) (out : list nat) (i : nat)
-                        (fs1 fs2 : list (option nat * nat)) : option (registry * list nat) :=
-                      match fs1, fs2 with
-                      | (_, f1) :: fs1', (_, f2) :: fs2' =>
-                        match compute_complement f P f1 f2 with
-                        | None => None
-                        | Some (P', fc) =>
-                          if Nat.eqb fc never_id then loop P' out (S i) fs1' fs2'
-                          else
-                            let fields := set_field_type (tfields i1) i fc in
-                            let '(P'', tuple_id) := register_tuple P' (tname i1) fields in
-                            let '(P''', ty_id) := register_type P'' (TTuple tuple_id) in
-                            loop P''' (out ++ [ty_id]) (S i) fs1' fs2'
-                        end
-                      | _, _ => Some (P, out)
-                      end in
-                  loop P0 [] 0 (tfields i1) (tfields i2)
+                else compl_fields (compute_complement f) never_id (tname i1) (tfields i1) P0 [] 0
+                                  (tfields i1) (tfields i2)
               | _, _ => Some (P0, [a])
               end
             | _, _ => Some (P0, [a])
@@ -307,27 +328,35 @@ Section Narrow.
     | _ => Some (union_type_ids P field_type_ids)
     end.
 
-  (* narrowing.rs:375-394  filter_variants_by_field *)
-  Definition filter_variants_by_field (P : registry) (parent_type_id field_idx field_must_be_id : nat)
+  (* narrowing.rs:375-394  filter_variants_by_field.
+     [by_overlap] selects the test applied to a variant's field type: `false` = is_compatible (the
+     code as it is), `true` = types_overlap (proposed repair hooks/fix_filter_variants.patch: after a
+     runtime test on the field succeeded, a variant whose field type merely OVERLAPS the tested type
+     can still be the value). *)
+  Fixpoint filter_loop (by_overlap : bool) (field_idx field_must_be_id : nat)
+           (P : registry) (filtered : list nat) (vs : list nat) : option (registry * list nat) :=
+    match vs with
+    | [] => Some (P, filtered)
+    | variant_id :: vs' =>
+      match get_field_type P variant_id field_idx with
+      | None => filter_loop by_overlap field_idx field_must_be_id P filtered vs'
+      | Some (P1, field_type_id) =>
+        match (if by_overlap then types_overlap P1 field_type_id field_must_be_id
+               else is_compatible P1 field_type_id field_must_be_id) with
+        | None => None
+        | Some true => filter_loop by_overlap field_idx field_must_be_id P1 (filtered ++ [variant_id]) vs'
+        | Some false => filter_loop by_overlap field_idx field_must_be_id P1 filtered vs'
+        end
+      end
+    end.
+
+  Definition filter_variants_by_field (by_overlap : bool) (P : registry) (parent_type_id field_idx field_must_be_id : nat)
     : option (registry * nat) :=
-    let variants := get_type_variants P parent_type_id in
-    let loop :=
-      fix loop (P : registry) (filtered : list nat) (vs : list nat) : option (registry * list nat) :=
-        match vs with
-        | [] => Some (P, filtered)
-        | variant_id :: vs' =>
-          match get_field_type P variant_id field_idx with
-          | None => loop P filtered vs'
-          | Some (P', field_type_id) =>
-            match is_compatible P' field_type_id field_must_be_id with
-            | None => None
-            | Some true => loop P' (filtered ++ [variant_id]) vs'
-            | Some false => loop P' filtered vs'
-            end
-          end
-        end in
-    match loop P [] variants with
+    match filter_loop by_overlap field_idx field_must_be_id P [] (get_type_variants P parent_type_id) with
     | None => None
     | Some (P1, filtered) => Some (union_type_ids P1 filtered)
     end.
 End Narrow.
+
+(* which test /repo's filter_variants_by_field applies today *)
+Definition current_filter_by_overlap : bool := false.
